@@ -71,6 +71,29 @@ def src_limits():
     for k, nm in enumerate(["en_au", "zh_CN", "sr_Latn", "EN", "en-AU", "en_", "fr-", "en-lol ", "e n"]):
         out.append((f"unknown-dialect:{k}", f"# language: {nm}\nFeature: f\n  Scenario: s\n    Given x\n", "en"))
         out.append((f"unknown-dialect-indented:{k}", " " * (k + 1) + f"# language: {nm}\n\t# language: xx\nFeature: f\n  Scenario: s\n    Given x\n", "en"))
+    # sources without a final line break whose last line is a bare keyword / an unfinished construct
+    for k, tail in enumerate(["Feature", "Feature: f\n  Scenario", "Feature: f\n  Rule", "Feature: f\n  Scenario: s\n    Given", "Feature: f\n  Scenario: s\n    *",
+                              "Feature: f\n  Scenario Outline: s\n    Examples", "Feature: f\n  Background", "@", "#", "|", "Feature: f\n  Scenario: s\n    Given x\n      \"\"\"", "# language"]):
+        out.append((f"no-final-eol:{k}", tail, "en"))
+    # a carriage return that is not part of a CR LF pair is an ordinary character of its line
+    out.append(("lone-cr", "Feature: a\rb\n  Scenario: s\rt\n    Given x\ry\n      | c\rd |\n  # e\rf\n    Then z\r\r\n", "en"))
+    out.append(("lone-cr-junk", "Feature: f\n junk\rmore\n  Scenario: s\r\n\r  @t\r\n", "en"))
+    # very wide tables (more cells than any small-integer cache), tables made of cell-less rows, a background step with a table
+    wide = "|".join(str(i % 10) for i in range(257))
+    out.append(("wide-table", f"Feature: f\n  Scenario: s\n    Given x\n      |{wide}|\n      |{wide}|\n", "en"))
+    out.append(("cellless-rows", "Feature: f\n  Scenario Outline: s\n    Given x\n      |\n      |\n    Examples:\n      |\n      |\n      |\n    Examples:\n      |  |\n      | v |\n", "en"))
+    out.append(("empty-header-cell", "Feature: f\n  Scenario Outline: <>\n    Given <> and <a>\n      | <> |\n    Examples:\n      |  | a |\n      | v | w |\n", "en"))
+    out.append(("background-table", "Feature: f\n  Background: b\n    Given x\n      | a | b |\n      | c | d |\n      | e | f |\n    And y\n      \"\"\"\n      d\n      \"\"\"\n  Scenario: s\n    Then z\n"
+                "  Rule: r\n    Background:\n      Given q\n        | g |\n        | h |\n    Scenario: t\n      Then u\n", "en"))
+    # text that changes under Unicode normalisation (combining marks, compatibility characters) in names, steps, cells, headers, tags, doc strings
+    out.append(("nfc-unstable", "@e\u0301 @\u212b\nFeature: e\u0301 \u2126\n  de\u0301sc\n  Scenario Outline: <e\u0301> <\u00e9>\n    Given <e\u0301> a\u030a\u0323 <\u00e9>\n      | e\u0301 | x | \u0e01\u0e33 | y |\n"
+                "      \n    When d\n      \"\"\" e\u0301\n      <e\u0301> <\u00e9>\n      \"\"\"\n    Examples:\n      | e\u0301 | b |\n      | 1 | 2 |\n", "en"))
+    # doc string content indented with other blanks than its delimiter; a tag carrying a placeholder
+    out.append(("mixed-indent-docstring", "Feature: f\n  Scenario: s\n    Given x\n      \"\"\"\n\t\t\t\t\t\ttabbed\n   \t  mixed\n\u3000\u3000\u3000\u3000\u3000\u3000wide\n      \"\"\"\n", "en"))
+    out.append(("tag-placeholder", "@f<id>\nFeature: f\n  @issue<id> @<id>\n  Scenario Outline: s <id>\n    Given <id>\n    @e<id>\n    Examples:\n      | id |\n      | 17 |\n", "en"))
+    # the same tag run on the same line, continued differently (Scenario / Rule / Examples / end of file) right after the feature line and after a background
+    for k, (pre, cont) in enumerate([(p, c) for p in ("Feature: f\n", "Feature: f\n  Background:\n    Given b\n") for c in ("  Scenario: s\n", "  Rule: r\n", "  Scenario Outline: o\n    Examples:\n", "")]):
+        out.append((f"tag-run-continued:{k}", pre + "  @a\n  # c\n  @b\n" + cont, "en"))
     # unexpected lines that are long or contain formatting characters (they are quoted in the error message)
     for k, junk in enumerate(["q" * 300, "w" * 1000, "100% of {0} and %s %d", "back\\slash \\1 \\g<0>", "'quoted' \"double\"", "tab\tinside\tline  "]):
         out.append((f"odd-unexpected-line:{k}", f"Feature: f\n  Scenario: s\n    Given x\n      | a |\n{junk}\n    Then y\n", "en"))
